@@ -64,6 +64,23 @@ pub fn covering_histories(cfg_names: &[&str]) -> Vec<History> {
     v
 }
 
+/// written with a large memtable budget, recovered with small ones: recovery flushes several
+/// memtables while replaying one WAL (and crashes in the middle of that)
+pub fn shrink_history() -> Vec<History> {
+    use Op::*;
+    let mut v = vec![];
+    v.push(History {
+        name: "cover-shrink/D->R->M2n".to_string(),
+        cfgs: cfgs(&["D", "R", "M2n", "Rn"]),
+        keys: k3(),
+        ops: vec![
+            Put(0, 0), Put(1, 0), Put(2, 0), Del(0), Put(1, 0), Batch(vec![(0, true), (2, true)]), Del(2), Put(2, 0), Reopen(1), Put(0, 0), Del(1), Reopen(2),
+            Put(1, 0), Reopen(3), Batch(vec![(0, false), (1, true)]), Reopen(0), Put(2, 0),
+        ],
+    });
+    v
+}
+
 /// every sequence of length 1..=depth over the crash alphabet, for each configuration
 pub fn generated_histories(cfg_names: &[&str], depth: usize) -> Vec<History> {
     let a = crash_alphabet();
@@ -211,10 +228,11 @@ pub fn c02(tier: &str) -> ! {
     let all_cfgs = ["T300", "T300n", "M2", "M2n"];
     if t {
         run_crash(&mut rep, "covering+nested", covering_histories(&all_cfgs), spec(true), budget(tier, 40, 1500), own);
+        run_crash(&mut rep, "shrink+nested", shrink_history(), spec(true), budget(tier, 40, 1500), own);
         run_crash(&mut rep, "generated<=3+nested", generated_histories(&all_cfgs, 3), spec(true), budget(tier, 40, 2400), own);
         run_crash(&mut rep, "generated<=4", generated_histories(&["T300n", "M2"], 4), spec(false), budget(tier, 40, 2400), own);
     } else {
-        run_crash(&mut rep, "covering", covering_histories(&all_cfgs), spec(false), budget(tier, 20, 0), own);
+        run_crash(&mut rep, "covering", covering_histories(&all_cfgs).into_iter().chain(shrink_history()).collect(), spec(false), budget(tier, 20, 0), own);
         run_crash(&mut rep, "covering+nested", covering_histories(&["M2", "T300n"]), spec(true), budget(tier, 20, 0), own);
         run_crash(&mut rep, "generated<=3", generated_histories(&all_cfgs, 3), spec(false), budget(tier, 25, 0), own);
         run_crash(&mut rep, "generated<=2+nested", generated_histories(&all_cfgs, 2), spec(true), budget(tier, 15, 0), own);
@@ -249,10 +267,10 @@ pub fn c16(tier: &str) -> ! {
     };
     let all_cfgs = ["T300", "T300n", "M2", "M2n"];
     if t {
-        run_crash(&mut rep, "covering", covering_histories(&all_cfgs), spec.clone(), budget(tier, 40, 1500), own);
+        run_crash(&mut rep, "covering", covering_histories(&all_cfgs).into_iter().chain(shrink_history()).collect(), spec.clone(), budget(tier, 40, 1500), own);
         run_crash(&mut rep, "generated<=3", generated_histories(&all_cfgs, 3), spec, budget(tier, 40, 2400), own);
     } else {
-        run_crash(&mut rep, "covering", covering_histories(&all_cfgs), spec.clone(), budget(tier, 25, 0), own);
+        run_crash(&mut rep, "covering", covering_histories(&all_cfgs).into_iter().chain(shrink_history()).collect(), spec.clone(), budget(tier, 25, 0), own);
         run_crash(&mut rep, "generated<=3", generated_histories(&all_cfgs, 3), spec, budget(tier, 30, 0), own);
     }
     for a in CRASH_ASSUMPTIONS {
@@ -412,7 +430,8 @@ pub fn c08(tier: &str) -> ! {
         run_faults(&mut rep, "generated<=3", generated_histories(&["T300", "M2n"], 3), class::PROPERTY_SET, budget(tier, 40, 2400));
         run_faults(&mut rep, "covering+reads", covering_histories(&["M2"]), class::ALL, budget(tier, 40, 1200));
     } else {
-        run_faults(&mut rep, "covering", covering_histories(&["T300", "T300n", "M2", "M2n"]), class::PROPERTY_SET | class::LIST, budget(tier, 30, 0));
+        run_faults(&mut rep, "covering", covering_histories(&["T300", "T300n", "M2", "M2n"]).into_iter().chain(shrink_history()).collect(), class::PROPERTY_SET | class::LIST, budget(tier, 30, 0));
+        run_faults(&mut rep, "covering+reads", covering_histories(&["M2"]), class::ALL, budget(tier, 15, 0));
         run_faults(&mut rep, "generated<=3", generated_histories(&["T300", "M2n"], 3), class::PROPERTY_SET, budget(tier, 25, 0));
     }
     rep.assume("a failing call has no effect on the file (fail-before semantics); one fault per execution, either that single call (once) or that call and all later ones of the counted classes (sticky)");
